@@ -88,3 +88,81 @@ package account
 //@   ensures [restore] !has(s.accessList.addresses, *ch.address)
 //@   ensures [others]  forall k common.Address :: k != *ch.address ==> has(s.accessList.addresses, k) == old(has(s.accessList.addresses, k)) && s.accessList.addresses[k] == old(s.accessList.addresses[k])
 //@   modifies heap("map[common.Address]int")
+
+// ---------------------------------------------------------------------------------------------
+// Account objects (C04). The registry of live account objects is a sync.Map, outside the subset: it is a
+// ghost map acct[db][address] -> object reference, and getAccountObject is trusted to look it up (and to
+// fill it from the trie on a miss). The dirty-marking callback of an object is
+// AccountDB.MarkAccountObjectDirty of its database (installed by newAccountObject), trusted as such.
+
+//@ ghost acct (Array Int (Array (Array (_ BitVec 64) (_ BitVec 8)) Int))
+//@ spec fn registered(db Int, a common.Address) Int = @select(@select(ghost(acct), db), a)
+
+//@ func AccountDB.getAccountObject
+//@   option trusted
+//@   requires adb != nil
+//@   ensures [hit]  old(registered(ref(adb), addr)) != 0 && !ptr(accountObject, old(registered(ref(adb), addr))).deleted ==> ref(result) == old(registered(ref(adb), addr))
+//@   ensures [keep] forall a common.Address :: old(registered(ref(adb), a)) != 0 ==> registered(ref(adb), a) == old(registered(ref(adb), a))
+//@   modifies ghost(acct)
+
+//@ func accountObject.onDirty
+//@   option trusted
+//@   requires this != nil && this.db != nil
+//@   ensures [marked] has(this.db.accountObjectsDirty, addr)
+//@   ensures [others] forall k common.Address :: k != addr ==> has(this.db.accountObjectsDirty, k) == old(has(this.db.accountObjectsDirty, k))
+//@   modifies heap("map[common.Address]struct{}")
+
+// touch journals the touched flag and whether the object was already dirty (its callback already consumed),
+// BEFORE consuming the callback.
+//@ func accountObject.touch
+//@   property C04
+//@   requires ao != nil && ao.db != nil
+//@   ensures [journal]   len(ao.db.transitions) == old(len(ao.db.transitions)) + 1 && istype(ao.db.transitions[len(ao.db.transitions)-1], touchChange)
+//@   ensures [prev]      unbox(ao.db.transitions[len(ao.db.transitions)-1], touchChange).prev == old(ao.touched)
+//@   ensures [prevDirty] unbox(ao.db.transitions[len(ao.db.transitions)-1], touchChange).prevDirty == (old(ao.onDirty) == nil)
+//@   ensures [account]   unbox(ao.db.transitions[len(ao.db.transitions)-1], touchChange).account != nil && *unbox(ao.db.transitions[len(ao.db.transitions)-1], touchChange).account == ao.address
+//@   ensures [prefix]    forall i int :: 0 <= i && i < old(len(ao.db.transitions)) ==> ao.db.transitions[i] == old(ao.db.transitions[i])
+//@   ensures [state]     ao.touched && ao.onDirty == nil
+//@   ensures [dirty]     old(ao.onDirty) != nil ==> has(ao.db.accountObjectsDirty, ao.address)
+//@   modifies ao.db.transitions, elems(ao.db.transitions), ao.onDirty, ao.touched, heap("map[common.Address]struct{}")
+
+//@ func touchChange.undo
+//@   property C04
+//@   requires s != nil && ch.account != nil && registered(ref(s), *ch.account) != 0 && !ptr(accountObject, registered(ref(s), *ch.account)).deleted
+//@   ensures [touched] !ch.prev && *ch.account != ripemd ==> !ptr(accountObject, old(registered(ref(s), *ch.account))).touched
+//@   ensures [dirty]   !ch.prev && *ch.account != ripemd && !ch.prevDirty ==> !has(s.accountObjectsDirty, *ch.account)
+//@   ensures [keepdirty] (ch.prev || *ch.account == ripemd || ch.prevDirty) ==> has(s.accountObjectsDirty, *ch.account) == old(has(s.accountObjectsDirty, *ch.account))
+//@   ensures [keep]    (ch.prev || *ch.account == ripemd) ==> ptr(accountObject, old(registered(ref(s), *ch.account))).touched == old(ptr(accountObject, registered(ref(s), *ch.account)).touched)
+//@   ensures [others]  forall k common.Address :: k != *ch.account ==> has(s.accountObjectsDirty, k) == old(has(s.accountObjectsDirty, k))
+
+// Nonce
+//@ func accountObject.setNonce
+//@   property C04
+//@   requires ao != nil && ao.db != nil
+//@   ensures [value] ao.data.Nonce == nonce && ao.onDirty == nil
+//@   ensures [dirty] old(ao.onDirty) != nil ==> has(ao.db.accountObjectsDirty, ao.address)
+//@   modifies ao.data.Nonce, ao.onDirty, heap("map[common.Address]struct{}")
+
+//@ func accountObject.SetNonce
+//@   property C04
+//@   requires ao != nil && ao.db != nil
+//@   ensures [journal] len(ao.db.transitions) == old(len(ao.db.transitions)) + 1 && istype(ao.db.transitions[len(ao.db.transitions)-1], nonceChange)
+//@   ensures [prev]    unbox(ao.db.transitions[len(ao.db.transitions)-1], nonceChange).prev == old(ao.data.Nonce)
+//@   ensures [account] unbox(ao.db.transitions[len(ao.db.transitions)-1], nonceChange).account != nil && *unbox(ao.db.transitions[len(ao.db.transitions)-1], nonceChange).account == ao.address
+//@   ensures [prefix]  forall i int :: 0 <= i && i < old(len(ao.db.transitions)) ==> ao.db.transitions[i] == old(ao.db.transitions[i])
+//@   ensures [value]   ao.data.Nonce == nonce
+//@   modifies ao.db.transitions, elems(ao.db.transitions), ao.data.Nonce, ao.onDirty, heap("map[common.Address]struct{}")
+
+//@ func accountObject.IncreaseNonce
+//@   property C04
+//@   requires ao != nil && ao.db != nil
+//@   ensures [journal] len(ao.db.transitions) == old(len(ao.db.transitions)) + 1 && istype(ao.db.transitions[len(ao.db.transitions)-1], nonceChange)
+//@   ensures [prev]    unbox(ao.db.transitions[len(ao.db.transitions)-1], nonceChange).prev == old(ao.data.Nonce)
+//@   ensures [account] unbox(ao.db.transitions[len(ao.db.transitions)-1], nonceChange).account != nil && *unbox(ao.db.transitions[len(ao.db.transitions)-1], nonceChange).account == ao.address
+//@   ensures [value]   ao.data.Nonce == old(ao.data.Nonce) + 1 && result == ao.data.Nonce
+//@   modifies ao.db.transitions, elems(ao.db.transitions), ao.data.Nonce, ao.onDirty, heap("map[common.Address]struct{}")
+
+//@ func nonceChange.undo
+//@   property C04
+//@   requires s != nil && ch.account != nil && registered(ref(s), *ch.account) != 0 && !ptr(accountObject, registered(ref(s), *ch.account)).deleted && ptr(accountObject, registered(ref(s), *ch.account)).db != nil
+//@   ensures [restore] ptr(accountObject, old(registered(ref(s), *ch.account))).data.Nonce == ch.prev
